@@ -267,6 +267,48 @@ def converge_factory(fn):
     return ConvergeSpec(fn)
 
 
+class NonFileOpenSpec:
+    """C15 "non-file URIs": Server::on_did_open / set_vfs_file_content for a document whose URI is NOT a file path (`untitled:Untitled-1`,
+    what editors send for unsaved buffers).  to_vfs_path answers VfsPath::Virtual (decided for the real code by the C15 to_vfs_path
+    kernel); VfsPath::as_path runs on its real MIR; the rest of the server is under-constrained.  Notification handlers have no panic
+    guard, so any panic on these paths takes the server down."""
+
+    def make_interp(self):
+        it = WGI.interp('glas', uc=True)
+        it.allow = [r'^server::<impl at [^>]*>::(on_did_open|set_vfs_file_content|apply_vfs_change)$', r'^server::<impl at [^>]*>::(on_did_open|set_vfs_file_content)::\{closure#\d+\}$',
+                    r'^base::<impl at [^>]*>::as_path$']
+        self.locks = Locks(it)
+        install(it, self.locks)
+        it.models['UrlExt::to_vfs_path'] = it.models['<Url as UrlExt>::to_vfs_path'] = lambda it_, c, a: Agg('enum', 'VfsPath', 'Virtual', [StringV([IntV(x, 8, 0) for x in b'untitled:Untitled-1'])])
+        it.models['<VfsPath as Clone>::clone'] = lambda it_, c, a: dcopy(models.deref(a[0]))
+        return it
+
+    def run_path(self, it):
+        self.locks.reset(); self.locks.protected = {}
+        body = [b for n, b in WGI.crates['glas'].items() if re.search(r'^server::<impl at [^>]*>::on_did_open$', n)][0]
+        params = Agg('struct', 'DidOpenTextDocumentParams', None, [Agg('struct', 'TextDocumentItem', None, [LazyV('uri'), LazyV('lang'), LazyV('version'), LazyV('text')])])
+        it.run_body(body, [RefV([LazyV('server')], 0), params])
+        return {'cls': 'opened', 'ok': True, 'sample': {'uri': 'untitled:Untitled-1'}}
+
+    def on_panic(self, it, e):
+        top = [f for f in e.stack if 'set_vfs_file_content' in f or 'on_did_open' in f]
+        if e.kind in ('unwrap-none', 'expect-none', 'unwrap-err', 'explicit-panic') and top and not self._havoc_induced(it, e):
+            return {'cls': 'violation', 'ok': False, 'cex': {'uri': 'untitled:Untitled-1'},
+                    'why': ['C15: didOpen of a document with a non-file URI (untitled:Untitled-1) panics in %s (%s %s): notification handlers have no panic guard, the server process dies' % (top[-1].split('::')[-1], e.kind, e.msg)]}
+        return {'cls': 'panic-under-havoc:' + e.kind, 'ok': True}
+
+    def _havoc_induced(self, it, e):
+        """the unwrapped value was an unconstrained one (then the panic is an artefact of under-constraining)"""
+        return bool(getattr(it, 'last_unwrap_lazy', True))
+
+
+def nonfile_factory():
+    return NonFileOpenSpec()
+
+
+WGI = None
+
+
 # ------------------------------------------------------------------------------------------------ C15b
 
 DIDCHANGE_ALLOW = SERVER_ALLOW[:0] + [r'^server::<impl at [^>]*>::on_did_change$', r'^server::<impl at [^>]*>::on_did_change::\{closure#\d+\}$',
